@@ -99,17 +99,19 @@ pub fn run(rep: &'static Report) {
     // all ordered password pairs
     let w = passwords();
     let salts: Vec<[u8; 32]> = (0..rep.tier.pick(1, 2)).map(|i| derive32(seed, &format!("c02-salt-{}", i))).collect();
-    let p = plaintext(seed ^ 0x22, 30);
     let mut enc_jobs = vec![];
     for (wi, _) in w.iter().enumerate() {
         for (si, _) in salts.iter().enumerate() {
             enc_jobs.push((wi, si));
         }
     }
+    // the same grid for two plaintexts: 30 bytes and EMPTY (a single zero-length final chunk)
+    for p in [plaintext(seed ^ 0x22, 30), vec![]] {
+    let p = &p[..];
     let files: Vec<((usize, usize), Vec<u8>)> = enc_jobs
         .par_iter()
         .map(|&(wi, si)| {
-            let (res, out) = run_plain(&Subject::PassEnc { pw: hx(&w[wi].1), salt: hx(&salts[si]) }, &p);
+            let (res, out) = run_plain(&Subject::PassEnc { pw: hx(&w[wi].1), salt: hx(&salts[si]) }, p);
             if !res.is_ok() {
                 rep.violation("pass/encrypt-fails", json!({"kind":"enc","w":hx(&w[wi].1)}), format!("pass_encrypt under '{}' failed: {}", w[wi].0, res.brief()));
             }
@@ -123,10 +125,11 @@ pub fn run(rep: &'static Report) {
         }
     }
     dec_jobs.par_iter().for_each(|&(wi, si, w2i, f)| {
-        pair_case(rep, w[wi].0, &w[wi].1, w[w2i].0, &w[w2i].1, &salts[si], &p, f);
-        rep.nontrivial(format!("pair-{}-{}-{}", wi, w2i, si).as_bytes());
+        pair_case(rep, w[wi].0, &w[wi].1, w[w2i].0, &w[w2i].1, &salts[si], p, f);
+        rep.nontrivial(format!("pair-{}-{}-{}-{}", wi, w2i, si, p.len()).as_bytes());
     });
-    rep.extra("password_pairs", json!(dec_jobs.len()));
+    rep.extra_add("password_pairs", dec_jobs.len() as u64);
+    }
     rep.sample(json!({"kind":"pw-pair","w":"e-acute-nfc","w2":"e-acute-nfd","expect":"Err and zero bytes released"}));
 
     // lengths x bounded short I/O through the public API
